@@ -610,4 +610,179 @@ theorem wq_wSetWait (st : Nat) (oww : Bool) (hpc : (s.ths i).pc = .wSetWait st o
       | spur o => simp only [] at h; cases h; exact hfail _
   · simp at h
 
+/-- pc-only move, general form -/
+theorem wq_setpc_gen (s : St) (i : Nat) (pc' : Pc) (h : WQ s)
+    (hpark : wparked pc' = true → wparked (s.ths i).pc = true ∨ preSleep (s.ths i).pc = some s.notify)
+    (hpre : ∀ q, preSleep pc' = some q → preSleep (s.ths i).pc = some q ∨ hasWW s.state = true)
+    (hseq : ∀ q, seqOf pc' = some q → seqOf (s.ths i).pc = some q ∨ q ≤ s.notify)
+    (hA : pendA (s.ths i).pc = true → pendA pc' = true)
+    (hW : pendW (s.ths i).pc = true → pendW pc' = true)
+    (hO : owing (s.ths i).pc = true → owing pc' = true ∨ hasWW s.state = true ∨ preSleep (s.ths i).pc = some s.notify) :
+    WQ (setPc s i pc') := by
+  refine wq_upd s _ i pc' ?_ ?_ rfl h ?_ hpark ?_ hseq hA hW ?_
+  · intro j hj; simp [setPc, setTh_ths, hj]
+  · simp [setPc]
+  · intro hb; left; simpa [setPc] using hb
+  · intro q hq'; rcases hpre q hq' with h1 | h1
+    · exact Or.inl h1
+    · right; simpa [setPc] using h1
+  · intro ho; rcases hO ho with h1 | h1 | h1
+    · exact Or.inl h1
+    · right; left; simpa [setPc] using h1
+    · exact Or.inr (Or.inr h1)
+
+include hq in
+theorem wq_wSeqLoad (hacc : ∀ v, e = .load 1 v → v = s.notify)
+    (hpc : (s.ths i).pc = .wSeqLoad) (h : step_wSeqLoad c s i (s.ths i) e = some s') : WQ s' := by
+  unfold step_wSeqLoad at h
+  split at h
+  · rename_i v
+    have hv := hacc v rfl
+    cases h
+    refine wq_setpc_gen s i _ hq ?_ ?_ ?_ ?_ ?_ ?_
+    · intro hh; simp [wparked] at hh
+    · intro q hh; simp [preSleep] at hh
+    · intro q hh; simp [seqOf] at hh; right; omega
+    · intro hh; simp [pendA, hpc] at hh
+    · intro hh; simp [pendW, hpc] at hh
+    · intro _; left; simp [owing]
+  · simp at h
+
+include hq in
+theorem wq_wStateLoad (seq : Nat) (hacc : ∀ v, e = .load 0 v → v = s.state)
+    (hpc : (s.ths i).pc = .wStateLoad seq) (h : step_wStateLoad c s i (s.ths i) seq e = some s') : WQ s' := by
+  unfold step_wStateLoad at h
+  split at h
+  · rename_i v
+    have hv := hacc v rfl
+    cases h
+    split
+    · obtain ⟨⟨i1, i2, i3, i4, i5⟩, io⟩ := inert_wNext v true
+      refine wq_setpc_gen s i _ hq ?_ ?_ ?_ ?_ ?_ ?_
+      · intro hh; rw [i1] at hh; cases hh
+      · intro q hh; rw [i2] at hh; cases hh
+      · intro q hh; rw [i3] at hh; cases hh
+      · intro hh; simp [pendA, hpc] at hh
+      · intro hh; simp [pendW, hpc] at hh
+      · intro _; left; exact io rfl
+    · rename_i hcond
+      have hww : hasWW s.state = true := by
+        rw [← hv]
+        cases hb : hasWW v with
+        | true => rfl
+        | false => exact absurd (Or.inr (by simp [hb])) hcond
+      refine wq_setpc_gen s i _ hq ?_ ?_ ?_ ?_ ?_ ?_
+      · intro hh; simp [wparked] at hh
+      · intro q _; right; exact hww
+      · intro q hh; left; simpa [seqOf, hpc] using hh
+      · intro hh; simp [pendA, hpc] at hh
+      · intro hh; simp [pendW, hpc] at hh
+      · intro _; left; simp [owing]
+  · simp at h
+
+include hq in
+theorem wq_wWaitLoad (seq : Nat) (hpc : (s.ths i).pc = .wWaitLoad seq) (h : step_wWaitLoad c s i (s.ths i) seq e = some s') : WQ s' := by
+  unfold step_wWaitLoad at h
+  split at h
+  · rename_i v
+    cases h
+    split
+    · refine wq_setpc_gen s i _ hq ?_ ?_ ?_ ?_ ?_ ?_
+      · intro hh; simp [wparked] at hh
+      · intro q hh; simp [preSleep] at hh
+      · intro q hh; simp [seqOf] at hh
+      · intro hh; simp [pendA, hpc] at hh
+      · intro hh; simp [pendW, hpc] at hh
+      · intro _; left; simp [owing]
+    · refine wq_setpc_gen s i _ hq ?_ ?_ ?_ ?_ ?_ ?_
+      · intro hh; simp [wparked] at hh
+      · intro q hh; left; simpa [preSleep, hpc] using hh
+      · intro q hh; left; simpa [seqOf, hpc] using hh
+      · intro hh; simp [pendA, hpc] at hh
+      · intro hh; simp [pendW, hpc] at hh
+      · intro _; left; simp [owing]
+  · simp at h
+
+include hq in
+theorem wq_wWaitSys (seq : Nat) (hpc : (s.ths i).pc = .wWaitSys seq) (h : step_wWaitSys c s i (s.ths i) seq e = some s') : WQ s' := by
+  unfold step_wWaitSys at h
+  split at h
+  · split at h
+    · simp at h
+    · split at h
+      · split at h
+        · rename_i hn
+          cases h
+          refine wq_setpc_gen s i _ hq ?_ ?_ ?_ ?_ ?_ ?_
+          · intro _; right; simp [preSleep, hpc, hn]
+          · intro q hh; left; simpa [preSleep, hpc] using hh
+          · intro q hh; left; simpa [seqOf, hpc] using hh
+          · intro hh; simp [pendA, hpc] at hh
+          · intro hh; simp [pendW, hpc] at hh
+          · intro _; right; right; simp [preSleep, hpc, hn]
+        · simp at h
+      · split at h
+        · simp at h
+        · cases h
+          refine wq_setpc_gen s i _ hq ?_ ?_ ?_ ?_ ?_ ?_
+          · intro hh; simp [wparked] at hh
+          · intro q hh; simp [preSleep] at hh
+          · intro q hh; simp [seqOf] at hh
+          · intro hh; simp [pendA, hpc] at hh
+          · intro hh; simp [pendW, hpc] at hh
+          · intro _; left; simp [owing]
+  · simp at h
+
+include hq in
+theorem wq_wParked (seq : Nat) (hpc : (s.ths i).pc = .wParked seq) (h : step_wParked c s i (s.ths i) seq e = some s') : WQ s' := by
+  unfold step_wParked at h
+  split at h
+  · cases h
+    split
+    · refine wq_setpc_gen s i _ hq ?_ ?_ ?_ ?_ ?_ ?_
+      · intro hh; simp [wparked] at hh
+      · intro q hh; left; simpa [preSleep, hpc] using hh
+      · intro q hh; left; simpa [seqOf, hpc] using hh
+      · intro hh; simp [pendA, hpc] at hh
+      · intro hh; simp [pendW, hpc] at hh
+      · intro hh; simp [owing, hpc] at hh
+    · refine wq_setpc_gen s i _ hq ?_ ?_ ?_ ?_ ?_ ?_
+      · intro hh; simp [wparked] at hh
+      · intro q hh; simp [preSleep] at hh
+      · intro q hh; simp [seqOf] at hh
+      · intro hh; simp [pendA, hpc] at hh
+      · intro hh; simp [pendW, hpc] at hh
+      · intro hh; simp [owing, hpc] at hh
+  · simp at h
+
+include hq in
+theorem wq_acquired (w : Bool) (hpc : (s.ths i).pc = .acquired w) (h : step_acquired c s i (s.ths i) w e = some s') : WQ s' := by
+  unfold step_acquired at h
+  split at h
+  · split at h
+    · cases h
+      exact wq_plain s i _ hq (by simp [Inert, wparked, preSleep, seqOf, pendA, pendW]) (by simp [pendW, hpc]) (by simp [owing, hpc])
+    · simp at h
+  · simp at h
+
+include hq in
+theorem wq_hold (w : Bool) (k : Nat) (hpc : (s.ths i).pc = .hold w k) (h : step_hold c s i (s.ths i) w k e = some s') : WQ s' := by
+  unfold step_hold at h
+  split at h
+  · rename_i k'
+    cases h
+    refine wq_upd s _ i (.hold w k') ?_ ?_ rfl hq ?_ ?_ ?_ ?_ ?_ ?_ ?_
+    · intro j hj; simp [setPc, setTh_ths, hj]
+    · simp [setPc]
+    · intro hb; left; simpa [setPc] using hb
+    · intro hh; simp [wparked] at hh
+    · intro q hh; simp [preSleep] at hh
+    · intro q hh; simp [seqOf] at hh
+    · intro hh; simp [pendA, hpc] at hh
+    · intro hh; simp [pendW, hpc] at hh
+    · intro hh; simp [owing, hpc] at hh
+  · cases h
+    exact wq_plain s i _ hq (by simp [Inert, wparked, preSleep, seqOf, pendA, pendW]) (by simp [pendW, hpc]) (by simp [owing, hpc])
+  · simp at h
+
 end TinyVerif.RwLock
